@@ -64,6 +64,9 @@ RULE = (
 )
 ASSUMPTIONS = [
     "ScriptedEnv / ScriptedTabularEnv dynamics ignore the action; observations are unique per (episode, t)",
+    "a quarter of the single scripted environments return float64 observations whose payload float32 cannot "
+    "represent; what a routine keeps in float64 must equal the environment's value exactly, what it keeps in a "
+    "narrower float type (float32 rollout arrays, network inputs) must equal the value cast to that type",
     "module-level callables (greedy_policy, mpc_action, sample_trajectories, collect_trajectories, update_ppo, "
     "train_policy_reinforce, train_policy_actor_critic, train_value_function, tabular update functions) are "
     "wrapped from the test side to observe their arguments; the wrapped original is always called",
@@ -109,6 +112,11 @@ def _eq(a, b):
     b = np.asarray(b)
     if a.size != b.size:
         return False
+    if a.dtype != b.dtype and a.dtype.kind == "f" and b.dtype.kind == "f":
+        # one side is kept in a narrower float type (float32 rollout arrays / network inputs of float64
+        # observations): equality up to that storage type.  Two float64 values must agree exactly.
+        narrow = a.dtype if a.dtype.itemsize < b.dtype.itemsize else b.dtype
+        a, b = a.astype(narrow), b.astype(narrow)
     return bool(np.array_equal(a.reshape(-1).astype(np.float64), b.reshape(-1).astype(np.float64)))
 
 
@@ -189,6 +197,8 @@ def _script(r, total, first_max=None, lens=(1, 1, 2, 2, 3, 3, 4, 5, 6, 8, 12), s
 def _env_cfg(r, name, discrete=None):
     cfg = {"script_seed": int(r.integers(0, 10_000)), "space_seed": int(r.integers(0, 10_000)),
            "obs_dim": 3 if QUICK or r.random() < 0.6 else 4}
+    # a quarter of the environments return float64 observations that float32 cannot represent
+    cfg["obs64"] = bool(cfg["script_seed"] % 4 == 0)
     if discrete is None:
         discrete = name in R.DQN_FAMILY
     if discrete:
@@ -607,7 +617,7 @@ def run_offpolicy(case):
     warm = max(0, int(cfg.get("learning_starts", 0)) - g0)
     b = _boundaries(tr)
     nt = len(b) >= 2 and any(k + 1 >= warm for k in b)
-    labels = [name] + _history_labels(tr, warm)
+    labels = [name, "obs-float64" if case["env"].get("obs64") else "obs-float32"] + _history_labels(tr, warm)
     if len(run.buffer.adds) > cfg["buffer_size"]:
         labels.append("buffer-wrapped")
     if any(k + 1 < warm for k in b):
@@ -812,7 +822,7 @@ def run_mrq_default(case):
     nt = bool(stats["encoder_batches"] and stats["critic_batches"] and len(seen) >= 2
               and any(tr[k]["truncated"] for k in seen))
     lens = {k: tr[k]["t"] for k in seen}
-    labels = [name, "horizons:" + ("q>=enc+3" if qh >= eh + 3 else "q=enc+1..2" if qh > eh else
+    labels = [name, "obs-float64" if case["env"].get("obs64") else "obs-float32", "horizons:" + ("q>=enc+3" if qh >= eh + 3 else "q=enc+1..2" if qh > eh else
                                    "enc>=q+3" if eh >= qh + 3 else "enc>q" if eh > qh else "enc=q"),
               "default-buffer-wraps" if len(store["adds"]) + len(ends) > cfg["buffer_size"] else "default-buffer-no-wrap"]
     labels += _history_labels(tr, int(cfg["learning_starts"]))
